@@ -201,6 +201,8 @@ fn data_digest(o: &mut Obs, d: &Data) {
 // estimators.  Every function runs the public API exactly as a user would and records what the
 // fitted object exposes.
 
+/// seeds: the case carries an integer; -1 stands for u64::MAX / usize::MAX (the casts below wrap),
+/// 0 and 1 are the other special values of the seed grid
 fn rng_of(inp: &Value) -> Xoshiro256Plus {
     Xoshiro256Plus::seed_from_u64(geti(inp, "seed") as u64)
 }
@@ -1572,7 +1574,7 @@ mod est_builder {
         let params = history!(
             hist_of(inp),
             || FastIca::params(),
-            |p: P| p.ncomponents(1).gfunc(GFunc::Exp).max_iter(3).tol(1e-1).random_state(seed + 17),
+            |p: P| p.ncomponents(1).gfunc(GFunc::Exp).max_iter(3).tol(1e-1).random_state(seed.wrapping_add(17)),
             |p: &P| {
                 let _ = p.check_ref().map(|_| ());
                 let _ = p.fit(&ods);
